@@ -240,6 +240,101 @@ pub fn binding(_cex: &Value) -> Result<String, String> {
         }
       }
     }
+    // recipients that carry only an unprotected header (RFC 7515 7.2.1 allows it): the encoder signs "." || payload - the very bytes
+    // the decoder reconstructs - alone, as first and as additional recipient of a general token
+    {
+      let mut uh = JwsHeader::new();
+      uh.set_alg(JwsAlgorithm::EdDSA);
+      uh.set_kid("did:example:123#k");
+      let ph = header(None, true);
+      for detached in [false, true] {
+        let payload: &[u8] = b"{\"iss\":\"joe\"}";
+        let enc_payload = identity_jose::jwu::encode_b64(payload);
+        let det = if detached { Some(enc_payload.as_bytes()) } else { None };
+        let want_input = {
+          let mut v = vec![b'.'];
+          v.extend_from_slice(enc_payload.as_bytes());
+          v
+        };
+        // flattened
+        if let Ok(e) = FlattenedJwsEncoder::new(payload, Recipient::new().unprotected(&uh), detached) {
+          if e.signing_input() != want_input.as_slice() {
+            log.push(format!("flattened, unprotected header only, detached={detached}: encoder signing input is not \".\" || payload"));
+          }
+          let sig = toy_sign(&k, e.signing_input());
+          match e.into_jws(&sig) {
+            Ok(token) => {
+              // (verification needs a protected alg - C11 - so the decoder's view is compared: its signing input is the encoder's)
+              match Decoder::new().decode_flattened_serialization(token.as_bytes(), det) {
+                Ok(item) => {
+                  if item.signing_input() != want_input.as_slice() || item.claims() != payload {
+                    log.push(format!("flattened, unprotected header only, detached={detached}: the decoder's signing input / claims differ from what the encoder signed"));
+                  }
+                }
+                Err(e) => log.push(format!("flattened, unprotected header only, detached={detached}: own token does not decode: {e}")),
+              }
+            }
+            Err(e) => log.push(format!("flattened, unprotected header only: into_jws failed: {e}")),
+          }
+        } else {
+          log.push("flattened encoder refuses a recipient with only an unprotected header".to_owned());
+        }
+        // general: (unprotected-only, protected) and (protected, unprotected-only)
+        for first_unprotected in [true, false] {
+          let (r1, r2) = if first_unprotected { (Recipient::new().unprotected(&uh), Recipient::new().protected(&ph)) } else { (Recipient::new().protected(&ph), Recipient::new().unprotected(&uh)) };
+          let Ok(e) = GeneralJwsEncoder::new(payload, r1, detached) else {
+            log.push("general encoder refuses the first recipient".to_owned());
+            continue;
+          };
+          if first_unprotected && e.signing_input() != want_input.as_slice() {
+            log.push(format!("general, unprotected-only first recipient, detached={detached}: encoder signing input is not \".\" || payload"));
+          }
+          let s1 = toy_sign(&k, e.signing_input());
+          let e = e.set_signature(&s1);
+          let Ok(e2) = e.add_recipient(r2) else {
+            log.push("general encoder refuses the second recipient".to_owned());
+            continue;
+          };
+          if !first_unprotected && e2.signing_input() != want_input.as_slice() {
+            log.push(format!("general, unprotected-only second recipient, detached={detached}: encoder signing input is not \".\" || payload"));
+          }
+          let s2 = toy_sign(&k, e2.signing_input());
+          match e2.set_signature(&s2).into_jws() {
+            Ok(token) => {
+              let v = JwsVerifierFn::from(toy_verify);
+              match Decoder::new().decode_general_serialization(token.as_bytes(), det) {
+                Err(e) => log.push(format!("general token with an unprotected-only recipient does not decode: {e}")),
+                Ok(it) => {
+                  let mut n = 0;
+                  for item in it {
+                    n += 1;
+                    let unprotected_only = (n == 1) == first_unprotected;
+                    match item {
+                      Ok(i) => {
+                        if i.claims() != payload {
+                          log.push(format!("general (unprotected-only first: {first_unprotected}, detached={detached}): entry {n} hands back other claims"));
+                        }
+                        if unprotected_only && i.signing_input() != want_input.as_slice() {
+                          log.push(format!("general (unprotected-only first: {first_unprotected}, detached={detached}): entry {n}: the decoder's signing input is not what the encoder signed"));
+                        }
+                        if !unprotected_only && i.verify(&v, &k).is_err() {
+                          log.push(format!("general (unprotected-only first: {first_unprotected}, detached={detached}): protected entry {n} does not verify"));
+                        }
+                      }
+                      Err(e) => log.push(format!("general (unprotected-only first: {first_unprotected}, detached={detached}): own entry {n} does not decode: {e}")),
+                    }
+                  }
+                  if n != 2 {
+                    log.push(format!("general token with two recipients yields {n} entries"));
+                  }
+                }
+              }
+            }
+            Err(e) => log.push(format!("general into_jws failed: {e}")),
+          }
+        }
+      }
+    }
     // general serialization, hand-built: two signatures over one payload whose protected headers disagree on b64
     // (each item's claims follow *its own* protected header), both orders
     {
